@@ -117,6 +117,51 @@ fn enumerate_flags(u: u64, from: u64, cur: &mut Vec<(u64, u64)>, stats: &mut (u6
     }
 }
 
+// Lists that are sorted by start but may overlap, nest, repeat a start or contain empty extents (not what FIEMAP produces, but the
+// function is public): the output may then overlap too, so only coverage and boundaries are demanded -- every byte of every
+// input extent is in some output range, and output ranges begin and end at input boundaries.
+fn check_merge_cover(input: &[(u64, u64)], flags: u64) -> Result<usize, String> {
+    let ext: Vec<Extent> = input.iter().enumerate().map(|(i, &(s, e))| Extent { start: s, end: e, shared: (flags >> i) & 1 == 1 }).collect();
+    let out = merge_extents(ext).map_err(|e| format!("error: {}", e))?;
+    let o: Vec<(u64, u64)> = out.iter().map(|e| (e.start, e.end)).collect();
+    for i in input {
+        for b in i.0..i.1 {
+            if !o.iter().any(|r| r.0 <= b && b < r.1) { return Err(format!("byte {} of input {:?} not covered by {:?}", b, i, o)); }
+        }
+    }
+    for r in &o {
+        if !input.iter().any(|i| i.0 == r.0) { return Err(format!("output start {} is no input start ({:?})", r.0, o)); }
+        if !input.iter().any(|i| i.1 == r.1) { return Err(format!("output end {} is no input end ({:?})", r.1, o)); }
+    }
+    Ok(o.len())
+}
+
+fn enumerate_overlap(u: u64, kmax: usize, from: u64, cur: &mut Vec<(u64, u64)>, stats: &mut (u64, u64, u64), bad: &mut Vec<String>) {
+    for flags in 0..(1u64 << cur.len()) {
+        stats.0 += 1;
+        match check_merge_cover(cur, flags) {
+            Ok(n) => { if n < cur.len() { stats.1 += 1; } }
+            Err(e) => { stats.2 += 1; if bad.len() < 5 { bad.push(format!("{:?} shared-flags={:b}: {}", cur, flags, e)); } }
+        }
+    }
+    if cur.len() >= kmax { return; }
+    for s in from..=u {
+        for e in s..=u {           // e == s: an empty extent
+            cur.push((s, e));
+            enumerate_overlap(u, kmax, s, cur, stats, bad);
+            cur.pop();
+        }
+    }
+}
+
+fn cmd_merge_exhaustive_overlap(u: u64, kmax: usize) -> i32 {
+    let mut stats = (0u64, 0u64, 0u64);
+    let mut bad = vec![];
+    enumerate_overlap(u, kmax, 0, &mut vec![], &mut stats, &mut bad);
+    println!("{{\"universe\":{},\"max_extents\":{},\"lists\":{},\"lists_with_merges\":{},\"violations\":{},\"examples\":{:?}}}", u, kmax, stats.0, stats.1, stats.2, bad);
+    if stats.2 > 0 { 1 } else { 0 }
+}
+
 fn cmd_merge_exhaustive_flags(u: u64) -> i32 {
     let mut stats = (0u64, 0u64, 0u64);
     let mut bad = vec![];
@@ -240,6 +285,7 @@ pub fn main() {
         Some("map") => cmd_map(&a[2]),
         Some("merge-exhaustive") => cmd_merge_exhaustive(a[2].parse().unwrap()),
         Some("merge-exhaustive-flags") => cmd_merge_exhaustive_flags(a[2].parse().unwrap()),
+        Some("merge-exhaustive-overlap") => cmd_merge_exhaustive_overlap(a[2].parse().unwrap(), a[3].parse().unwrap()),
         Some("merge-random") => cmd_merge_random(a[2].parse().unwrap(), a[3].parse().unwrap()),
         Some("copy_file") => cmd_copy_file(&a[2], &a[3]),
         Some("copy_bytes") => cmd_copy_bytes(&a[2], &a[3], a[4].parse().unwrap()),
